@@ -71,6 +71,12 @@ func c14Configs() []map[string]any {
 							m["compress"] = comp
 						}
 						out = append(out, m)
+						// the same configuration from a server that itself runs inside tmux
+						mj := map[string]any{"tmux_output_junk": true}
+						for k, v := range m {
+							mj[k] = v
+						}
+						out = append(out, mj)
 					}
 				}
 			}
@@ -515,7 +521,7 @@ func init() {
 	vs.Register(&vs.Check{
 		ID:    "C14",
 		Level: "exploration",
-		Rule: "(i) all 1152 client actions (binary x directory x fork x protocol 1..9 x newline x tunnel x confirm) x 6 representative server configurations and all 1728 server configurations (every option subset x bufsize x timeout x pane width x compress) x 8 representative actions through the real relay's handshake, outside tmux and (a subset) inside tmux; " +
+		Rule: "(i) all 1152 client actions (binary x directory x fork x protocol 1..9 x newline x tunnel x confirm) x 6 representative server configurations and all 3456 server configurations (every option subset x bufsize x timeout x pane width x compress x server inside tmux or not) x 8 representative actions through the real relay's handshake, outside tmux and (a subset) inside tmux; " +
 			"(ii) every sequence of 1..2 (quick) / 1..3 (thorough) transfers over {upload, download, refused, failed on the client, failed on the server, Ctrl-C keep, Ctrl-C delete} through one and two relay instances, each followed by a transparency probe, then a transfer that must succeed; the same with tunnel connectors installed and every sequence of two transfers over {tunnelled up/down, in-band up/down (the server could not listen), Ctrl-C} before an in-band and a tunnelled final transfer; " +
 			"(iii) every cut position inside the last protocol message of a transfer on the wire the relay reads, and every set of 2 (quick) / 2..7 (thorough) read boundaries inside its first 8 bytes",
 		Assumptions: []string{"escape tables are not enumerated as server configuration: a relay never lets binary mode be negotiated without a tunnel, so no real server sends one through it",
